@@ -55,6 +55,7 @@ class Ctx:
         self.known_hits = []   # known-finding keys hit
         self.infra = []
         self.cov = {}
+        self.action_cov = {}   # {"trace"|"mc": {"Module!Action": times taken}}
         self.assumptions = []
         self.kf = load_known_findings()
 
@@ -113,6 +114,24 @@ def load_known_findings():
 
 
 # -- Go harness -------------------------------------------------------------
+def harness_dir(ctx):
+    """The harness module.  Its go.mod replaces the repository's modules by
+    /repo/...; when VERIF_REPO names another tree (a scratch worktree used to
+    try a seeded change, a snapshot for a background run) a private copy of
+    the harness with rewritten replace directives is used."""
+    if os.path.realpath(REPO) == "/repo":
+        return HARNESS
+    d = os.path.join(ctx.tmp, "harness")
+    if not os.path.isdir(d):
+        shutil.copytree(HARNESS, d)
+        gm = os.path.join(d, "go.mod")
+        with open(gm) as fh:
+            t = fh.read()
+        with open(gm, "w") as fh:
+            fh.write(t.replace("=> /repo/", "=> %s/" % os.path.realpath(REPO)))
+    return d
+
+
 def build_drivers(ctx, pkg="./drivers", race=False, tags="verif,rpctest",
                   name=None):
     out = os.path.join(ctx.tmp, (name or pkg.strip("./").replace("/", "_"))
@@ -122,8 +141,8 @@ def build_drivers(ctx, pkg="./drivers", race=False, tags="verif,rpctest",
         cmd.append("-race")
     cmd.append(pkg)
     t = time.time()
-    p = subprocess.run(cmd, cwd=HARNESS, env=go_env(), capture_output=True,
-                       text=True)
+    p = subprocess.run(cmd, cwd=harness_dir(ctx), env=go_env(),
+                       capture_output=True, text=True)
     if p.returncode != 0:
         raise Infra("harness build failed (is /repo compiling with -tags verif?)"
                     ":\n" + p.stdout + p.stderr)
@@ -161,8 +180,30 @@ def _spec_copy(ctx):
     return d
 
 
+_COV_RE = re.compile(
+    r"^<(\w+) line \d+, col \d+ to line \d+, col \d+ of module (\w+)>: "
+    r"(\d+):(\d+)", re.M)
+
+
+_COV_SUB_RE = re.compile(
+    r"^<(\w+) line \d+, col \d+ to line \d+, col \d+ of module (\w+) "
+    r"\((\d+) (\d+) (\d+) (\d+)\)>: (\d+):(\d+)", re.M)
+
+
+def _want_cov(ctx, module, cov):
+    """Per-action coverage (-coverage 1) is collected for every trace
+    validation (cheap: the search is linear) and for the model-checking
+    configurations of the quick tier (small); VERIF_MC_COVERAGE=1 forces it
+    for the large thorough configurations too."""
+    if cov is not None:
+        return cov
+    if "Trace" in module:
+        return True
+    return ctx.tier == "quick" or os.environ.get("VERIF_MC_COVERAGE") == "1"
+
+
 def tlc(ctx, module, cfg_text, name, workers=None, timeout=900, extra=None,
-        heap=None):
+        heap=None, cov=None):
     """Run TLC on spec/<module>.tla with the given cfg text.  Returns a dict:
     ok, generated, distinct, depth, violated (invariant/property name or None),
     rejected_at (trace validation), out."""
@@ -171,8 +212,10 @@ def tlc(ctx, module, cfg_text, name, workers=None, timeout=900, extra=None,
     with open(cfg, "w") as fh:
         fh.write(cfg_text)
     meta = os.path.join(ctx.tmp, "meta-" + name)
+    cov = _want_cov(ctx, module, cov)
     cmd = ["timeout", str(timeout), "tlc", "-workers", str(workers or NCPU),
-           "-metadir", meta, "-config", cfg] + (extra or []) + [module + ".tla"]
+           "-metadir", meta, "-config", cfg] + (extra or []) + \
+        (["-coverage", "1"] if cov else []) + [module + ".tla"]
     env = dict(os.environ)
     if heap:
         env["JAVA_TOOL_OPTIONS"] = (env.get("JAVA_TOOL_OPTIONS", "") +
@@ -203,6 +246,31 @@ def tlc(ctx, module, cfg_text, name, workers=None, timeout=900, extra=None,
     m = re.search(r'"TRACE_REJECTED_AT_LINE"\s*,\s*(\d+)\s*,\s*"OF"\s*,\s*(\d+)', out)
     if m:
         res["rejected_at"] = int(m.group(1))
+    if cov:
+        kind = "trace" if "Trace" in module else "mc"
+        last = {}
+        for m in _COV_RE.finditer(out):     # the last report is the total
+            last[(m.group(2), m.group(1))] = int(m.group(4))
+        for m in _COV_SUB_RE.finditer(out):
+            # an unnamed disjunct of Next ("guard /\\ Action(e)"): name it by
+            # the last operator applied in its source text
+            mod = m.group(2)
+            l1, c1, l2, c2 = (int(x) for x in m.group(3, 4, 5, 6))
+            try:
+                src = open(os.path.join(d, mod + ".tla")).read().split("\n")
+                txt = " ".join(src[l1 - 1:l2])[c1 - 1:] if l1 == l2 else \
+                    src[l1 - 1][c1 - 1:] + " " + " ".join(src[l1:l2])
+                ops = re.findall(r"\b([A-Z]\w*)\(", txt)
+                ops = [o for o in ops if o not in ("CanFault", "Room", "Peer",
+                                                   "Len", "Ack", "Nack")]
+                nm = ops[-1] if ops else "%s@%d" % (m.group(1), l1)
+            except OSError:
+                nm = "%s@%d" % (m.group(1), l1)
+            last[(mod, nm)] = last.get((mod, nm), 0) + int(m.group(8))
+        acc = ctx.action_cov.setdefault(kind, {})
+        for (mod, act), cnt in last.items():
+            k = "%s!%s" % (mod, act)
+            acc[k] = acc.get(k, 0) + cnt
     if p.returncode == 124:
         raise Infra("TLC timed out on %s (%s)" % (module, name))
     if "Model checking completed. No error has been found." in out \
@@ -251,6 +319,14 @@ def read_ndjson(path):
 # -- evidence -----------------------------------------------------------------
 def write_evidence(ctx, level, coverage, assumptions):
     os.makedirs(EVID, exist_ok=True)
+    coverage = dict(coverage)
+    for kind, label in (("trace", "impl_traces"), ("mc", "model_checking")):
+        acc = ctx.action_cov.get(kind)
+        if acc:
+            coverage["spec_actions_taken_by_" + label] = {
+                k: v for k, v in sorted(acc.items()) if v > 0}
+            coverage["spec_actions_never_taken_by_" + label] = sorted(
+                k for k, v in acc.items() if v == 0)
     ev = {
         "property_id": ctx.pid,
         "tier": ctx.tier,
